@@ -1,6 +1,5 @@
 package main
 
-func cmdGeom(args []string)    { harnessErr("geom: not built yet") }
 func cmdScript(args []string)  { harnessErr("script: not built yet") }
 func cmdConc(args []string)    { harnessErr("conc: not built yet") }
 func cmdExtract(args []string) { harnessErr("extract: not built yet") }
